@@ -604,6 +604,69 @@ def run(prog: Program, res: Result) -> None:
                             res.fail("C17.R7", file=rel, line=st.lineno, qualname=fi.qualname, construct=f"{fi.qualname}: expression list reset without resetting {missing}", message=f"{fi.qualname} starts the next markup's expression list but leaves self.{missing[0]} as the previous expression set it: after `{{% if a..b %}}` the next closing parenthesis anywhere in the template is taken for the end of a range and a valid tag is rejected, with the error positioned in that tag", what=what)
     res.floor("C17.R7", "expression-list resets in the state functions", n_reset, 4)
 
+    # ---------------------------------------------------------------- R8: the three offset -> line searches agree
+    res.rule("C17.R8", "the three functions that turn a character offset into a line (LiquidError._error_context, messages.line_number, messages.line_number_factory._line_number) run the same search: after normalising names and the offset expression their loops are identical, and each reports `<index of the line found> + 1`; _error_context's column is the offset minus the start of that line")
+    check_line_searches(prog, res, "C17.R8")
+
+    # ---------------------------------------------------------------- R7b: a list handed to a token is not reused
+    res.rule("C17.R7b", "a scanner list handed to a token (expression=self.expression, statements=self.line_statements, whitespace=self.line_space) is replaced by a fresh list on every path from that emission to the end of the state function: otherwise the next markup's token starts with the previous markup's expression tokens, which lie outside its span")
+    n_hand = 0
+    for fi in prog.all_functions():
+        if fi.module is not mod or fi.cls is not lexer:
+            continue
+        hands = []
+        for c in ast.walk(fi.node):
+            if isinstance(c, ast.Call) and (dotted(c.func) or "").endswith("Token"):
+                for k in c.keywords:
+                    if k.arg in ("expression", "statements", "whitespace") and isinstance(k.value, ast.Attribute) and isinstance(k.value.value, ast.Name) and k.value.value.id == "self":
+                        hands.append((c, k.value.attr))
+        if not hands:
+            continue
+        fcfg = lm.cfg(fi.name) if fi.name in lm.methods else CFG(fi.node)
+        for c, attr in hands:
+            n_hand += 1
+            node = next((n for n in fcfg.nodes if n.node is not None and n.kind in ("stmt", "test") and any(x is c for x in ast.walk(n.node))), None)
+            site = f"{rel}:{c.lineno} {fi.qualname}"
+            what = f"{fi.qualname}: self.{attr} is rebound to a fresh list after it was handed to `{norm(c.func)}`"
+
+            def _rebinds(n, attr=attr):  # noqa: ANN001, ANN202
+                nd = getattr(n, "node", None)
+                return getattr(n, "kind", "") == "stmt" and isinstance(nd, ast.Assign) and any(_is_self_attr(t, attr) for t in nd.targets) and isinstance(nd.value, ast.List) and not nd.value.elts
+
+            if node is None:
+                continue
+            # every path from the emission to a normal exit passes a rebinding
+            reach_wo = fcfg.reachable(node, avoid=lambda n: n is not node and _rebinds(n))
+            exits = [n for n in fcfg.nodes if n.kind == "stmt" and isinstance(n.node, ast.Return)] + [src for src, lab in fcfg.exit.pred if lab != "exc"]
+            leak = [e for e in exits if e.id in reach_wo and not _rebinds(e) and e is not node]
+            if not leak:
+                res.ok("C17.R7b", site, what, "fresh list on every path to the function's exits")
+            else:
+                res.fail("C17.R7b", file=rel, line=c.lineno, qualname=fi.qualname, construct=f"{fi.qualname}: self.{attr} handed to {norm(c.func)} and kept", message=f"{fi.qualname} hands self.{attr} to `{norm(c.func)}` and can return (line {leak[0].line}) without rebinding it to a fresh list: the tokens of this markup are also the beginning of the next markup's list", what=what)
+    res.floor("C17.R7b", "scanner lists handed to tokens", n_hand, 6)
+
+    # ---------------------------------------------------------------- R9: a range token spans its parentheses
+    res.rule("C17.R9", "a range token spans from its opening to its closing parenthesis: RangeToken(start=<token tested to be LPAREN>.index, stop=<token tested to be RPAREN>.index + 1) - both delimiters are one character long")
+    ar = lexer.methods.get("accept_range")
+    if ar is None:
+        raise AnalysisError("Lexer.accept_range vanished")
+    kinds9: dict[str, str] = {}
+    for c in ast.walk(ar.node):
+        if isinstance(c, ast.Call) and (dotted(c.func) or "") == "is_token_type" and len(c.args) == 2 and isinstance(c.args[0], ast.Name):
+            kinds9[c.args[0].id] = (dotted(c.args[1]) or "").split(".")[-1]
+    rts = [c for c in ast.walk(ar.node) if isinstance(c, ast.Call) and (dotted(c.func) or "").endswith("RangeToken")]
+    res.floor("C17.R9", "RangeToken constructions in accept_range", len(rts), 1)
+    for c in rts:
+        kw = {k.arg: k.value for k in c.keywords if k.arg}
+        st_, sp_ = kw.get("start"), kw.get("stop")
+        ok_start = isinstance(st_, ast.Attribute) and st_.attr in ("index", "start") and isinstance(st_.value, ast.Name) and kinds9.get(st_.value.id) == "LPAREN"
+        ok_stop = isinstance(sp_, ast.BinOp) and isinstance(sp_.op, ast.Add) and isinstance(sp_.right, ast.Constant) and sp_.right.value == 1 and isinstance(sp_.left, ast.Attribute) and sp_.left.attr in ("index", "start") and isinstance(sp_.left.value, ast.Name) and kinds9.get(sp_.left.value.id) == "RPAREN"
+        what = "RangeToken spans `(` … `)`"
+        if ok_start and ok_stop:
+            res.ok("C17.R9", f"{rel}:{c.lineno} Lexer.accept_range", what, f"start={norm(st_)}, stop={norm(sp_)}")
+        else:
+            res.fail("C17.R9", file=rel, line=c.lineno, qualname="Lexer.accept_range", construct=f"RangeToken(start={norm(st_) if st_ is not None else '?'}, stop={norm(sp_) if sp_ is not None else '?'})", message="the range token's span is not `(` through `)`: its start is not the opening parenthesis' position or its stop is not one past the closing parenthesis, so the span reported for `(a..b)` is not the text it was scanned from", what=what)
+
     progress_rule(prog, res, lexer, lm, state_fns)
 
     # ---------------------------------------------------------------- R1d: saved start marks are fresh when a token is built from them
@@ -1121,27 +1184,54 @@ def check_path_tokens(prog: Program, res: Result, rule: str) -> None:
                     return 3
         return k
 
+    def _syncs(nd: ast.AST) -> bool:
+        """The statement brings self.start up to self.pos: `self.start = self.pos` or `self.ignore()` (skip)."""
+        if isinstance(nd, ast.Assign) and any(_is_self_attr(t, "start") for t in nd.targets) and _is_self_attr(nd.value, "pos"):
+            return True
+        return isinstance(nd, ast.Expr) and isinstance(nd.value, ast.Call) and isinstance(nd.value.func, ast.Attribute) and _is_self_attr(nd.value.func, nd.value.func.attr) and nd.value.func.attr in ("ignore", "skip")
+
+    def _bump(v: int, mv: int) -> int:
+        if mv >= 3 or v >= 3:
+            return 3 if (mv != 0 or v >= 3) else v
+        return max(0, min(3, v + mv))
+
     def ptr(n, st, label):  # noqa: ANN001, ANN202
-        """State = (fresh|stale, characters consumed since the last store of stop: 0..3)."""
+        """State = (fresh|stale, characters consumed since the last store of stop: 0..3, characters consumed since self.start was
+        last brought up to self.pos: 0..3)."""
         if n.node is None or n.kind not in ("stmt", "test") or label == "exc":
             return st
-        flag, cnt = st
+        flag, cnt, lag = st
         mv = _moves(n.node)
-        if mv >= 3 or cnt >= 3:
-            cnt = 3 if (mv != 0 or cnt >= 3) else cnt
-        else:
-            cnt = max(0, min(3, cnt + mv))
+        cnt = _bump(cnt, mv)
+        lag = _bump(lag, mv)
+        if n.kind == "test" and label == "false" and isinstance(n.node, ast.Name) and n.node.id == "carry":
+            lag = 0  # without a carried word accept_path is entered on the `[` it is about to read: nothing consumed yet
         if n.kind == "stmt":
+            if _syncs(n.node):
+                lag = 0
             if _gains(n.node):
                 flag = "stale"
             if _stops(n.node):
                 flag, cnt = "fresh", 0
-        return (flag, cnt)
+        return (flag, cnt, lag)
 
     def _pjoin(a, b):  # noqa: ANN001, ANN202
-        return ("stale" if "stale" in (a[0], b[0]) else "fresh", max(a[1], b[1]))
+        return ("stale" if "stale" in (a[0], b[0]) else "fresh", max(a[1], b[1]), max(a[2], b[2]))
 
-    PIN = forward(acfg, ("fresh", 0), ptr, _pjoin)
+    PIN = forward(acfg, ("fresh", 0, 3), ptr, _pjoin)
+    # a stop taken from self.start is only as good as self.start: exactly at the scan position (lag 0) for the path being extended,
+    # exactly one character behind (the closing bracket just consumed) for a nested path that is being closed
+    for n in acfg.nodes:
+        if n.kind == "stmt" and isinstance(n.node, ast.Assign) and n.id in PIN and any(isinstance(t, ast.Attribute) and t.attr == "stop" for t in n.node.targets) and _is_self_attr(n.node.value, "start"):
+            lag_here = PIN[n.id][2]
+            own = any(norm(t.value) == "self.path_stack[-1]" for t in n.node.targets if isinstance(t, ast.Attribute))
+            want = 0 if own else 1
+            site = f"{rel}:{n.line} Lexer.accept_path"
+            what = f"`{norm(n.node)}`: self.start is {'at' if own else 'one character behind'} the scan position"
+            if lag_here == want:
+                res.ok(rule, site, what, f"{lag_here} character(s) consumed since self.start was synchronised")
+            else:
+                res.fail(rule, file=rel, line=n.line, qualname="Lexer.accept_path", construct=f"{norm(n.node)} with a stale self.start", message=f"`{norm(n.node)}` takes the token's end from self.start, but self.start was last synchronised {('several' if lag_here >= 3 else lag_here)} character(s) ago on some path (a segment was consumed without `self.start = self.pos`): the path token's span ends before its last segment", what=what)
     rets = [n for n in acfg.nodes if n.kind == "stmt" and isinstance(n.node, ast.Return)] + [src for src, _l in acfg.exit.pred if not (src.kind == "stmt" and isinstance(src.node, ast.Return))]
     res.floor(rule, "exits of accept_path", len(rets), 2)
     depth_vars = {t.id for a in ast.walk(ap.node) if isinstance(a, ast.Assign) and norm(a.value) == "len(self.path_stack)" for t in a.targets if isinstance(t, ast.Name)}
@@ -1151,7 +1241,7 @@ def check_path_tokens(prog: Program, res: Result, rule: str) -> None:
         site = f"{rel}:{r.line} Lexer.accept_path"
         what = f"exit at line {r.line}: the path token's stop is current"
         st_end = ptr(r, PIN[r.id], "next")
-        if st_end[0] == "fresh" and st_end[1] == 0:
+        if st_end[0] == "fresh" and st_end[1] == 0:  # (the third component, the lag of self.start, is checked at each use)
             res.ok(rule, site, what, "`self.path_stack[-1].stop = …` follows every segment append on all paths, and nothing is consumed after the last store (net of backup())")
         elif st_end[0] == "fresh":
             res.fail(rule, file=rel, line=r.line, qualname="Lexer.accept_path", construct="return after consuming characters that the stored stop does not cover", message="accept_path can return after consuming part of the path (e.g. the closing bracket of an index) later than the last `self.path_stack[-1].stop = …`: the token's span ends before the text it was scanned from", what=what)
@@ -1188,3 +1278,95 @@ def check_path_tokens(prog: Program, res: Result, rule: str) -> None:
                 res.fail(rule, file=rel, line=n.line, qualname="Lexer.accept_path", construct=f"{norm(n.node)} after the resync", message=f"`{norm(n.node)}` runs after the closing bracket was skipped (scan pointers synced): the nested variable's span includes the `]` of the enclosing path", what=what)
     res.floor(rule, "nested path stop assignments", n_nested, 1)
 
+
+def check_line_searches(prog: Program, res: Result, rule: str) -> None:
+    """The three offset -> line searches of liquid2 agree (C17.R8 = C15.R8)."""
+    import copy as _copy
+
+    def _line_search(fn: ast.AST) -> tuple[str, str, str] | None:
+        """(normalised loop, normalised sentinel initialisations, normalised `line number` expression) of a line search."""
+        loops = [n for n in ast.walk(fn) if isinstance(n, ast.For) and isinstance(n.iter, ast.Call) and isinstance(n.iter.func, ast.Name) and n.iter.func.id == "enumerate"]
+        if len(loops) != 1:
+            return None
+        loop = _copy.deepcopy(loops[0])
+        # roles: enumerate targets, the accumulator (augmented in the loop), the result index (assigned the enumerate counter)
+        names: dict[str, str] = {}
+        if isinstance(loop.target, ast.Tuple) and len(loop.target.elts) == 2 and all(isinstance(e, ast.Name) for e in loop.target.elts):
+            names[loop.target.elts[0].id] = "I"
+            names[loop.target.elts[1].id] = "LINE"
+        if isinstance(loop.iter.args[0], ast.Name):
+            names[loop.iter.args[0].id] = "LINES"
+        for n in ast.walk(loop):
+            if isinstance(n, ast.AugAssign) and isinstance(n.target, ast.Name):
+                names.setdefault(n.target.id, "ACC")
+            if isinstance(n, ast.Assign) and len(n.targets) == 1 and isinstance(n.targets[0], ast.Name) and isinstance(n.value, ast.Name) and names.get(n.value.id) == "I":
+                names.setdefault(n.targets[0].id, "FOUND")
+        acc = next((k for k, v in names.items() if v == "ACC"), None)
+        found = next((k for k, v in names.items() if v == "FOUND"), None)
+        if acc is None or found is None:
+            return None
+        # the offset: the operand compared with the accumulator
+        for n in ast.walk(loop):
+            if isinstance(n, ast.Compare) and len(n.ops) == 1:
+                l_, r_ = n.left, n.comparators[0]
+                if isinstance(r_, ast.Name) and r_.id == acc and not (isinstance(l_, ast.Name) and l_.id in names):
+                    n.left = ast.Name(id="OFFSET", ctx=ast.Load())
+                elif isinstance(l_, ast.Name) and l_.id == acc and not (isinstance(r_, ast.Name) and r_.id in names):
+                    n.comparators = [ast.Name(id="OFFSET", ctx=ast.Load())]
+        for n in ast.walk(loop):
+            if isinstance(n, ast.Name) and n.id in names:
+                n.id = names[n.id]
+        inits = sorted(f"{names[t.id]} = {norm(a.value)}" for a in ast.walk(fn) if isinstance(a, ast.Assign) and len(a.targets) == 1 and isinstance((t := a.targets[0]), ast.Name) and t.id in (acc, found) and isinstance(a.value, (ast.Constant, ast.UnaryOp)))
+        # the reported line: the returned value (first element of a returned tuple), looked through one local
+        lineexpr = ""
+        for r_ in ast.walk(fn):
+            if isinstance(r_, ast.Return) and r_.value is not None and not any(r_ is x for f2 in ast.walk(fn) if isinstance(f2, (ast.FunctionDef, ast.AsyncFunctionDef)) and f2 is not fn for x in ast.walk(f2)):
+                v_ = r_.value.elts[0] if isinstance(r_.value, ast.Tuple) and r_.value.elts else r_.value
+                if isinstance(v_, ast.Name):
+                    defs_ = [a.value for a in ast.walk(fn) if isinstance(a, ast.Assign) and any(isinstance(x, ast.Name) and x.id == v_.id for x in a.targets)]
+                    v_ = defs_[0] if len(defs_) == 1 else v_
+                v2 = _copy.deepcopy(v_)
+                for x in ast.walk(v2):
+                    if isinstance(x, ast.Name) and x.id == found:
+                        x.id = "FOUND"
+                lineexpr = norm(v2)
+        return norm(loop, 2000), "; ".join(inits), lineexpr
+
+    sib = []
+    for rel_, q_ in (("liquid2/exceptions.py", "LiquidError._error_context"), ("liquid2/messages.py", "line_number"), ("liquid2/messages.py", "line_number_factory.<locals>._line_number")):
+        f_ = prog.fn_opt(rel_, q_)
+        if f_ is None:
+            raise AnalysisError(f"{q_} vanished")
+        sib.append((f_, _line_search(f_.node)))
+    from collections import Counter as _Counter
+
+    sigs = _Counter(sig for _f, sig in sib if sig is not None)
+    major = sigs.most_common(1)[0][0] if sigs else None
+    for f_, sig in sib:
+        site = f"{f_.file}:{f_.node.lineno} {f_.qualname}"
+        what = f"{f_.qualname}: offset -> line search agrees with its siblings"
+        if sig is None:
+            res.fail(rule, file=f_.file, line=f_.node.lineno, qualname=f_.qualname, construct=f"{f_.qualname}: no enumerate/accumulate line search recognised", message=f"{f_.qualname} no longer finds the line of an offset the way its two siblings do (one loop over enumerate(lines) accumulating lengths): not decided - the three must be kept in step", what=what)
+        elif sig == major and sigs[major] >= 2:
+            res.ok(rule, site, what, f"{sig[2]} after `{sig[0][:70]}…`")
+        else:
+            diff = "loop" if major is None or sig[0] != major[0] else ("initial values" if sig[1] != major[1] else "line expression")
+            res.fail(rule, file=f_.file, line=f_.node.lineno, qualname=f_.qualname, construct=f"{f_.qualname}: {diff} differs from the sibling line searches", message=f"{f_.qualname} searches the line of an offset differently from its siblings ({diff}: `{(sig[0] if diff == 'loop' else sig[1] if diff == 'initial values' else sig[2])[:90]}` vs `{(major[0] if diff == 'loop' else major[1] if diff == 'initial values' else major[2])[:90] if major else ''}`): error positions and message line numbers for the same token disagree, so at least one does not refer to the construct it describes", what=what)
+    # column = offset - start of the found line
+    ec = sib[0][0]
+    params = [a.arg for a in ec.node.args.args]
+    off = params[2] if len(params) > 2 else "index"
+    rets = [r.value for r in ast.walk(ec.node) if isinstance(r, ast.Return) and isinstance(r.value, ast.Tuple) and len(r.value.elts) >= 2]
+    what = "_error_context: column = offset - (characters up to the end of the line found - length of that line)"
+    okc = False
+    for t in rets:
+        col = t.elts[1]
+        if isinstance(col, ast.Name):
+            defs = [a.value for a in ast.walk(ec.node) if isinstance(a, ast.Assign) and any(isinstance(x, ast.Name) and x.id == col.id for x in a.targets)]
+            col = defs[0] if len(defs) == 1 else col
+        if isinstance(col, ast.BinOp) and isinstance(col.op, ast.Sub) and isinstance(col.left, ast.Name) and col.left.id == off and isinstance(col.right, ast.BinOp) and isinstance(col.right.op, ast.Sub) and isinstance(col.right.left, ast.Name) and isinstance(col.right.right, ast.Call) and norm(col.right.right.func) == "len" and isinstance(col.right.right.args[0], ast.Subscript):
+            okc = True
+    if okc:
+        res.ok(rule, f"{ec.file}:{ec.node.lineno} {ec.qualname}", what, "offset - (accumulated - len(lines[found]))")
+    else:
+        res.fail(rule, file=ec.file, line=ec.node.lineno, qualname=ec.qualname, construct="column is not offset - start of line", message="_error_context no longer computes the column as the offset minus the start of the line it found: the reported column does not point at the token", what=what)
